@@ -1,6 +1,7 @@
 import MakoModel.Basic.Wire
 import MakoModel.Codegen.Model
 import MakoModel.Codegen.Spec
+import MakoModel.Codegen.RenderLiteral
 /-!
 Driver handler `tgt`: templates arrive in a prefix wire syntax (one token per field, strings as code
 points); answers are the S-expression of the generated module, or the result of running it.
@@ -241,6 +242,17 @@ def handle : Handler
     let (res, out, σ) := render ⟨mods, k⟩ ⟨eh, fe⟩ fuel
     pure (" ".intercalate [showVRes res, encStr out, toString σ.bufs.length, toString σ.frames.length,
             toString σ.next.length, toString σ.loops.length, toString σ.cnt])
+  | ["literal", src] => do
+    -- lex → tmplOfTokens → codegen → exec: `<plain?> <lexer outcome ok?> <output | none>`
+    let s ← decStr src
+    let r := Lexer.lex Lexer.Cfg.current s
+    let plain := Lexer.Plain s
+    let ok := r.outcome == Lexer.Outcome.ok
+    match tmplOfTokens r.toks with
+    | none => pure (encBool plain ++ " " ++ encBool ok ++ " none")
+    | some t =>
+      let (res, out, _) := render ⟨[codegenModule t none], 1000000000⟩ ⟨none, false⟩ (r.toks.length + 9)
+      pure (encBool plain ++ " " ++ encBool ok ++ " " ++ showVRes res ++ " " ++ encStr out)
   | "spec" :: ts => do
     let (k, r) ← pNat ts
     let (fuel, r) ← pNat r
